@@ -964,7 +964,7 @@ theorem binv_init (dc caches : Bool) (strong weak : AMap) (db : List Id) (fresh 
     (pins : List Obj) (progs : Tid → List Op)
     (hu : ∀ i o p, aget strong i = some o → aget weak i = some p → o = p) :
     BInv (mkInit dc caches strong weak db fresh freq frac cc off pins progs) := by
-  refine ⟨hu, ?_, ?_, ?_, ?_, ?_, ?_, ?_⟩
+  refine ⟨hu, ?_, ?_, ?_, ?_, ?_, ?_, ?_, ?_⟩
   · intro i o h; simp [mkInit] at h
   · intro t i o h
     have : trPc (startTh dc caches (progs t)).pc = some (i, o) := h
@@ -982,6 +982,7 @@ theorem binv_init (dc caches : Bool) (strong weak : AMap) (db : List Id) (fresh 
   · intro t i o h
     have : Out.obj i o ∈ (startTh dc caches (progs t)).outs := h
     simp [outs_startTh] at this
+  · intro m hm; simp [mkInit, odicts] at hm
 
 theorem finv_init (dc caches : Bool) (strong weak : AMap) (db : List Id) (fresh freq frac cc off : Nat)
     (pins : List Obj) (progs : Tid → List Op)
